@@ -137,11 +137,11 @@ Proof.
       destruct (is_dot (y :: g')); cbn in Hg; [destruct Hg | destruct Hg as [X|[]]; discriminate].
     + rewrite <- Hd. destruct (is_dotdot (x :: t)); [reflexivity|]. destruct (is_dot (x :: t)) eqn:E; [congruence|]. reflexivity.
 Qed.
-Theorem u_push_contains base p :
-  u_scan (ucomps p) O = None -> p <> [] -> base <> [] ->
+Theorem u_push_comps base p :
+  no_root_p p -> p <> [] -> base <> [] ->
   ucomps (u_push base p) = ucomps base ++ added p.
 Proof.
-  intros Hs Hp Hb. pose proof (scan_none_no_root p Hs) as Hr.
+  intros Hr Hp Hb.
   unfold u_push. destruct p as [|b r] eqn:Ep; [congruence|]. rewrite <- Ep in *.
   assert (Habs : u_is_absolute p = false).
   { unfold u_is_absolute. rewrite u_has_root_spec. rewrite ucomps_cs. unfold cs. cbn [fst snd cspec]. unfold lead_extra.
@@ -169,3 +169,8 @@ Proof.
   - exfalso. unfold last_byte in El. rewrite Eb0 in El. destruct (rev (x0 :: t0)) eqn:E; [|discriminate].
     apply (f_equal (@length byte)) in E. rewrite rev_length in E. discriminate.
 Qed.
+
+Theorem u_push_contains base p :
+  u_scan (ucomps p) O = None -> p <> [] -> base <> [] ->
+  ucomps (u_push base p) = ucomps base ++ added p.
+Proof. intros Hs. apply u_push_comps. apply scan_none_no_root. exact Hs. Qed.
